@@ -19,17 +19,8 @@ OPS = {
     "iter": dict(pre=[], code=["if [x for x in ll] != src: return explain('iter')"]),
     "bool": dict(pre=[], code=["if bool(ll) != (len(src) > 0): return explain('bool')"]),
     "in": dict(pre=[], code=["if bool({a} in ll) != ({a} in src): return explain('in', {a})"]),
-    "eq_list": dict(
-        pre=["0 <= {b} <= 1"],
-        code=["other = list(src) if {b} == 0 else list(src) + [{a}]", "if bool(ll == other) != ({b} == 0): return explain('eq_list', {a}, {b})"],
-    ),
-    "eq_lazy": dict(
-        pre=["0 <= {b} <= 1"],
-        code=[
-            "other = LazyList(iter(list(src) if {b} == 0 else [{a}] + list(src)))",
-            "if bool(ll == other) != ({b} == 0): return explain('eq_lazy', {a}, {b})",
-        ],
-    ),
+    "eq_list": dict(pre=["len({L}) <= 3"], code=["if bool(ll == list({L})) != (src == list({L})): return explain('eq_list')"]),
+    "eq_lazy": dict(pre=["len({L}) <= 3"], code=["if bool(ll == LazyList(iter(list({L})))) != (src == list({L})): return explain('eq_lazy')"]),
     "count": dict(pre=[], code=["if ll.count({a}) != src.count({a}): return explain('count', {a})"]),
     "reversed": dict(pre=[], code=["if list(ll.reversed()) != src[::-1]: return explain('reversed')"]),
     "copy": dict(pre=[], code=["cp = H.deep_copy(ll)", "if list(cp) != src: return explain('copy')"]),
@@ -62,9 +53,9 @@ def history_fn(name, hist, maxlen, excl, twin=False, win=2):
     pres = ["len(src) <= %d" % maxlen]
     body = ["src = list(src)", "ll = LazyList(iter(list(src)))"]
     for i, k in enumerate(hist):
-        names = {x: "%s%d" % (x, i) for x in "abc"}
-        used = [x for x in "abc" if any("{%s}" % x in s for s in OPS[k]["pre"] + OPS[k]["code"])]
-        params += ["%s: int" % names[x] for x in used]
+        names = {x: "%s%d" % (x, i) for x in "abcL"}
+        used = [x for x in "abcL" if any("{%s}" % x in s for s in OPS[k]["pre"] + OPS[k]["code"])]
+        params += ["%s: %s" % (names[x], "List[int]" if x == "L" else "int") for x in used]
         pres += [p.format(**names) for p in OPS[k]["pre"]]
         body += [c.format(**names) for c in OPS[k]["code"]]
     body += ["if ll.listify() != src: return explain('final listify')"]
